@@ -79,8 +79,19 @@ func c11Main(args []string) int {
 				b.WriteString("</span>")
 			}
 		}
-		doc := fmt.Sprintf(`<html><head><style>@page{size:400px 2000px;margin:0} html,body{display:block;margin:0;padding:0} p{display:block;margin:0 0 0 16px;font-family:weasyprint;font-size:8px;line-height:10px;width:%dpx;text-align:%s;text-indent:%dpx;white-space:%s;text-align-last:%s;overflow-wrap:%s}</style></head><body><p>%s</p></body></html>`,
-			sc.W*8, sc.Align, sc.Indent*8, sc.Ws, sc.Last, map[bool]string{false: "normal", true: "break-word"}[sc.Ow], b.String())
+		// variants of the materialisation (the specification's lines are the same):
+		//  1: a paragraph of the same font with another line-height comes first in the document
+		//  2: the page is two lines high, so a longer paragraph continues on the following pages
+		variant := out.Cur % 3
+		pageH, decoy := 2000, ""
+		if variant == 1 {
+			decoy = `<p style="line-height:30px;width:200px;text-indent:0;text-align:left">zz</p>`
+		}
+		if variant == 2 {
+			pageH = 20
+		}
+		doc := fmt.Sprintf(`<html><head><style>@page{size:400px %dpx;margin:0} html,body{display:block;margin:0;padding:0} p{display:block;margin:0 0 0 16px;font-family:weasyprint;font-size:8px;line-height:10px;width:%dpx;text-align:%s;text-indent:%dpx;white-space:%s;text-align-last:%s;overflow-wrap:%s;orphans:1;widows:1}</style></head><body>%s<p id="t">%s</p></body></html>`,
+			pageH, sc.W*8, sc.Align, sc.Indent*8, sc.Ws, sc.Last, map[bool]string{false: "normal", true: "break-word"}[sc.Ow], decoy, b.String())
 		pages, err := drv.Layout(doc, &drv.Opts{Engine: c11Engine})
 		if err != nil {
 			out.Fatal(err.Error())
@@ -98,14 +109,25 @@ func c11Main(args []string) int {
 		}
 		var got []gotLine
 		var py float64
+		inT := false
 		for _, p := range pages {
 			drv.Walk(p, func(bx boxes.Box, _ int) bool {
 				f := bx.Box()
 				if f.Element != nil && f.Element.Data == "p" && boxes.BlockT.IsInstance(bx) {
 					py = float64(f.ContentBoxY())
+					inT = false
+					for _, a := range f.Element.Attr {
+						if a.Key == "id" && a.Val == "t" {
+							inT = true
+						}
+					}
 				}
 				if lb, ok := bx.(*boxes.LineBox); ok {
-					gl := gotLine{y: float64(lb.PositionY), h: float64(lb.Height.V()), x: math.Inf(1), right: math.Inf(-1)}
+					if !inT {
+						return false
+					}
+					// (y relative to the content top of the paragraph fragment on this page)
+					gl := gotLine{y: float64(lb.PositionY) - py, h: float64(lb.Height.V()), x: math.Inf(1), right: math.Inf(-1)}
 					var texts []string
 					for _, c := range lb.Children {
 						cf := c.Box()
@@ -214,7 +236,7 @@ func c11Main(args []string) int {
 					same = strings.TrimSpace(got[q].text) == vt[q]
 				}
 				if same {
-					out.Disagree("lines:inline-box-break-rules", fmt.Sprintf("%s: an inline box with padding is not entered on a line where it does not fit entirely, and its opening padding is forgotten when further words are tested for fit (overflow); lines %+v", doc[strings.Index(doc, "<p>"):], got),
+					out.Disagree("lines:inline-box-break-rules", fmt.Sprintf("%s: an inline box with padding is not entered on a line where it does not fit entirely, and its opening padding is forgotten when further words are tested for fit (overflow); lines %+v", doc[strings.Index(doc, "<body>"):], got),
 						map[string]interface{}{"doc": doc, "want": s.Lines, "scenario": json.RawMessage(line)})
 					return
 				}
@@ -222,7 +244,7 @@ func c11Main(args []string) int {
 			if c11Engine != "pango" {
 				kind = c11Engine + ":" + kind
 			}
-			out.Disagree("lines:"+kind+":"+what, fmt.Sprintf("%s (line %d): %s; lines %+v", doc[strings.Index(doc, "<p>"):], j+1, what, got), map[string]interface{}{"doc": doc, "want": s.Lines, "scenario": json.RawMessage(line)})
+			out.Disagree("lines:"+kind+":"+what, fmt.Sprintf("%s (line %d): %s; lines %+v", doc[strings.Index(doc, "<body>"):], j+1, what, got), map[string]interface{}{"doc": doc, "want": s.Lines, "scenario": json.RawMessage(line)})
 		}
 		if len(got) != len(s.Lines) {
 			fail(fmt.Sprintf("%d lines instead of %d", len(got), len(s.Lines)), 0)
@@ -243,8 +265,12 @@ func c11Main(args []string) int {
 				fail(fmt.Sprintf("holds %q instead of %q", g.text, wantText), j)
 				return
 			}
-			if math.Abs(g.y-py-float64(j)*10) > eps || math.Abs(g.h-10) > eps {
-				fail(fmt.Sprintf("is at y=%g height=%g instead of y=%d height=10", g.y-py, g.h, j*10), j)
+			wantY := float64(j) * 10
+			if variant == 2 {
+				wantY = float64(j%2) * 10
+			}
+			if math.Abs(g.y-wantY) > eps || math.Abs(g.h-10) > eps {
+				fail(fmt.Sprintf("is at y=%g height=%g instead of y=%g height=10", g.y, g.h, wantY), j)
 				return
 			}
 			wantX := 16 + float64(w.G.X2)*em/2
